@@ -46,3 +46,34 @@ impl PartialEqSpecImpl for F64 {
     open spec fn obeys_eq_spec() -> bool { true }
     open spec fn eq_spec(&self, o: &F64) -> bool { self.r() == o.r() }
 }
+impl PartialOrd for F64 { #[verifier::external_body] fn partial_cmp(&self, o: &F64) -> Option<Ordering> { unimplemented!() } }
+impl PartialOrdSpecImpl for F64 {
+    open spec fn obeys_partial_cmp_spec() -> bool { true }
+    open spec fn partial_cmp_spec(&self, o: &F64) -> Option<Ordering> {
+        if self.r() < o.r() { Some(Ordering::Less) } else if self.r() == o.r() { Some(Ordering::Equal) } else { Some(Ordering::Greater) }
+    }
+}
+pub open spec fn rfloor(x: real) -> int { x.floor() }
+impl F64 {
+    #[verifier::external_body]
+    pub fn from_usize(n: usize) -> (r: F64) ensures r.r() == n as real, r.fin() { unimplemented!() }
+    // `x as usize` (saturating float-to-int cast) on a non-negative finite value below 2^64: the floor
+    #[verifier::external_body]
+    pub fn trunc_usize(self) -> (r: usize) requires 0real <= self.r() < 18446744073709551616real ensures r as int == rfloor(self.r()) { unimplemented!() }
+    #[verifier::external_body]
+    pub fn fract(self) -> (r: F64) ensures self.r() >= 0real ==> r.r() == self.r() - rfloor(self.r()) as real, -1real < r.r() < 1real, r.fin() == self.fin() { unimplemented!() }
+}
+impl F64 {
+    // `x as u64` / `x as u32`: saturating float-to-int casts (negative and NaN give 0)
+    #[verifier::external_body]
+    pub fn trunc_u64(self) -> (r: u64)
+        ensures self.r() >= 18446744073709551615real ==> r == u64::MAX, 0real <= self.r() < 18446744073709551615real ==> r as int == rfloor(self.r()), self.r() < 0real ==> r == 0
+    { unimplemented!() }
+    #[verifier::external_body]
+    pub fn trunc_u32(self) -> (r: u32)
+        ensures self.r() >= 4294967295real ==> r == u32::MAX, 0real <= self.r() < 4294967295real ==> r as int == rfloor(self.r()), self.r() < 0real ==> r == 0
+    { unimplemented!() }
+    // f64::trunc on a non-negative value: the floor, as a float
+    #[verifier::external_body]
+    pub fn trunc(self) -> (r: F64) ensures self.r() >= 0real ==> r.r() == rfloor(self.r()) as real, self.r() < 0real ==> r.r() <= 0real, r.fin() == self.fin() { unimplemented!() }
+}
